@@ -188,6 +188,8 @@ def driver_loop(self, st, spec, iterable):
     rng = None
     if is_for:
         from .prims import SymRange
+        if isinstance(iterable, range) and iterable.step == 1:
+            iterable = SymRange(self, [iterable.start, iterable.stop])
         if isinstance(iterable, SymRange):
             rng = iterable
             n_t = self.to_z3(self.binop_values(ast.Sub(), rng.stop, rng.start), "int")
